@@ -693,22 +693,27 @@ class Screen(BaseScreen, RealTerminal):
                 output.extend(("\x08" * back, ias))  # pylint: disable=used-before-assignment  # defined in `if row`
 
                 if encoding != "utf-8":
-                    if cs is None:
+                    if last_charset_flag == "U" and insertcs != "U":
+                        output.append(escape.IBMPC_OFF)
+
+                    if insertcs is None:
                         icss = escape.SI
-                    elif cs == "U":
+                    elif insertcs == "U":
                         icss = escape.IBMPC_ON
                     else:
                         icss = escape.SO
 
                     output.append(icss)
+                    last_charset_flag = insertcs
 
                 if not IS_WINDOWS:
                     output += [escape.INSERT_ON, inserttext, escape.INSERT_OFF]
                 else:
                     output += [f"{escape.ESC}[{str_util.calc_width(inserttext, 0, len(inserttext))}@", inserttext]
 
-                if encoding != "utf-8" and cs == "U":
+                if encoding != "utf-8" and insertcs == "U":
                     output.append(escape.IBMPC_OFF)
+                    last_charset_flag = None
 
             if whitespace_at_end:
                 output.append(escape.ERASE_IN_LINE_RIGHT)
